@@ -152,7 +152,7 @@ def obligations(tier):
                  bounds=f"n, source chunk, target chunk <= {N}; every target element", witness_rule=lambda m: m["c"] != m["tc"], **common))
     o.append(Obl("fill[existing-target,computed-source]", h_whole_lazy, [("n", 1, N), ("c", 1, N), ("tc", 1, N), ("g", 0, N)],
                  bounds=f"n, source chunk, target chunk <= {N}", witness_rule=lambda m: m["c"] != m["tc"], **common))
-    R = 6 if tier == "quick" else 9
+    R = 5 if tier == "quick" else 9
     o.append(Obl("fill[region]", h_region, [("n", 1, R), ("c", 1, R), ("tn", 1, R + 3), ("tc", 1, R), ("a", 0, R), ("g", 0, R + 3)],
                  bounds=f"source n<= {R}, target <= {R+3}, all chunkings, every aligned region offset, every target element", witness_rule=lambda m: m["c"] != m["tc"], **common))
     o.append(Obl("reject[misaligned-region]", h_region_misaligned, [("n", 1, R), ("c", 1, R), ("tn", 1, R + 3), ("tc", 1, R), ("a", 0, R)],
